@@ -498,6 +498,7 @@ func Main(spec Spec) {
 	list := flag.Bool("list", false, "list scenarios")
 	only := flag.String("only", "", "substring filter on scenario names")
 	bound := flag.Int("bound", -1, "override deviation bound")
+	level := flag.Int("level", -1, "internal: explore exactly this deviation bound")
 	flag.Parse()
 
 	if *replay != "" {
@@ -533,7 +534,11 @@ func Main(spec Spec) {
 		if s.Enum != nil {
 			r = enumScenario(s, *tier, *shard, *nshards, dl)
 		} else {
-			r = exploreScenario(s, *shard, *nshards, dl, 0)
+			from := 0
+			if *level >= 0 {
+				s.Bound, from = *level, *level
+			}
+			r = exploreScenario(s, *shard, *nshards, dl, from)
 		}
 		w := bufio.NewWriter(os.Stdout)
 		json.NewEncoder(w).Encode(r)
@@ -575,38 +580,101 @@ func orchestrate(spec Spec, scs []*Scenario, tier string, nworkers int, only str
 		}
 	}
 	self, _ := os.Executable()
+	// Level-wise iterative deviation bounding: every scenario completes bound L before any scenario
+	// starts bound L+1 (a single DFS pass at bound L covers every execution of cost <= L), so an
+	// exhausted time budget leaves a uniform completed bound instead of unexplored scenarios.
+	maxLevel := 0
+	for _, it := range items {
+		if s := scs[it.scen]; s.Body != nil && s.Bound > maxLevel {
+			maxLevel = s.Bound
+		}
+	}
 	results := make([]*Result, len(items))
-	var wg sync.WaitGroup
-	sem := make(chan struct{}, nworkers)
 	engineErr := ""
 	var mu sync.Mutex
-	for idx, it := range items {
-		wg.Add(1)
-		sem <- struct{}{}
-		go func(idx int, it item) {
-			defer wg.Done()
-			defer func() { <-sem }()
-			cmd := exec.Command(self, "-worker", "-tier", tier, "-scenario", strconv.Itoa(it.scen), "-shard", strconv.Itoa(it.shard), "-nshards", strconv.Itoa(it.nshards), "-deadline", strconv.FormatInt(deadline.Unix(), 10), "-bound", strconv.Itoa(boundOverride))
-			cmd.Env = append(os.Environ(), "GOMAXPROCS=2")
-			cmd.Stderr = os.Stderr
-			out, err := cmd.Output()
-			var r Result
-			if err == nil {
-				err = json.Unmarshal(out, &r)
+	for level := 0; level <= maxLevel; level++ {
+		if level > 0 && time.Now().After(deadline) {
+			break
+		}
+		var wg sync.WaitGroup
+		sem := make(chan struct{}, nworkers)
+		for idx, it := range items {
+			s := scs[it.scen]
+			if s.Body == nil && level > 0 {
+				continue
 			}
-			if err != nil {
+			if s.Body != nil && s.Bound < level {
+				continue
+			}
+			wg.Add(1)
+			sem <- struct{}{}
+			go func(idx int, it item, level int) {
+				defer wg.Done()
+				defer func() { <-sem }()
+				args := []string{"-worker", "-tier", tier, "-scenario", strconv.Itoa(it.scen), "-shard", strconv.Itoa(it.shard), "-nshards", strconv.Itoa(it.nshards), "-deadline", strconv.FormatInt(deadline.Unix(), 10), "-bound", strconv.Itoa(boundOverride)}
+				if scs[it.scen].Body != nil {
+					args = append(args, "-level", strconv.Itoa(level))
+				}
+				cmd := exec.Command(self, args...)
+				cmd.Env = append(os.Environ(), "GOMAXPROCS=2")
+				cmd.Stderr = os.Stderr
+				out, err := cmd.Output()
+				var r Result
+				if err == nil {
+					err = json.Unmarshal(out, &r)
+				}
 				mu.Lock()
-				engineErr = fmt.Sprintf("worker for scenario %q shard %d failed: %v\n%s", scs[it.scen].Name, it.shard, err, clip(string(out), 2000))
-				mu.Unlock()
-				return
-			}
-			results[idx] = &r
-		}(idx, it)
+				defer mu.Unlock()
+				if err != nil {
+					engineErr = fmt.Sprintf("worker for scenario %q shard %d failed: %v\n%s", scs[it.scen].Name, it.shard, err, clip(string(out), 2000))
+					return
+				}
+				m := results[idx]
+				if m == nil {
+					r.Bound = scs[it.scen].Bound
+					if r.TimedOut && scs[it.scen].Body != nil {
+						r.BoundDone = -1
+					}
+					results[idx] = &r
+					return
+				}
+				// merge a later level into the earlier ones
+				m.Execs += r.Execs
+				m.Steps += r.Steps
+				m.Pruned += r.Pruned
+				m.StepCapped += r.StepCapped
+				m.NFindings += r.NFindings
+				m.Findings = append(m.Findings, r.Findings...)
+				m.Wall += r.Wall
+				if r.TimedOut {
+					m.TimedOut = true
+				} else {
+					m.BoundDone = r.BoundDone
+					m.States = r.States
+					m.Outcomes = r.Outcomes
+					m.MaxDepth, m.MaxPoints = r.MaxDepth, r.MaxPoints
+					if len(r.Samples) > 0 {
+						m.Samples = r.Samples
+					}
+				}
+			}(idx, it, level)
+		}
+		wg.Wait()
+		if engineErr != "" {
+			break
+		}
 	}
-	wg.Wait()
 	if engineErr != "" {
 		fmt.Fprintln(os.Stderr, "ENGINE ERROR:", engineErr)
 		return 2
+	}
+	for idx, it := range items {
+		if results[idx] == nil { // never started (budget exhausted before its first level)
+			results[idx] = &Result{Scenario: scs[it.scen].Name, Shard: it.shard, Outcomes: map[string]int{}, BoundDone: -1, Bound: scs[it.scen].Bound, TimedOut: true}
+		}
+		if s := scs[it.scen]; s.Body != nil && results[idx].BoundDone < s.Bound {
+			results[idx].TimedOut = true // its own bound was not completed
+		}
 	}
 	return report(spec, scs, items, results, tier, time.Since(t0))
 }
